@@ -31,6 +31,10 @@ CHECKS = {
         text="RSAKey.decrypt is executed with the private-key operation returning an arbitrary symbolic encoded message and with hashing/HMAC as uninterpreted functions; z3 proves for every EM and ciphertext of the enumerated modulus sizes that it never raises, consults no randomness, performs exactly one private operation, returns the real message iff the PKCS#1 v1.5 padding is valid and otherwise the synthetic message whose length is chosen from the ciphertext-keyed PRF alone (independent of the defect class), and None exactly for publicly invalid ciphertexts. RSAKeyExchange.processClientKeyExchange is proved to return 48 bytes on every path with identical RNG use, the real premaster iff length and version bytes are right.",
         note="Modulus sizes 16/32/48 bytes (quick) up to 64 (thorough); SHA-256/HMAC uninterpreted; timing/cache side channels are outside (the code itself documents CPython is not constant time); the wire behaviour of the whole server flow (no early alert) is not yet driven.",
         design="5/C11", technique=T),
+    "C19": dict(
+        text="HandshakeSettings.validate() is executed on receivers whose list-valued fields are selected by symbolic selectors from the documented vocabularies (plus an unknown token, duplicates, empty list) and whose scalar fields are symbolic integers; on every path a deep snapshot shows the receiver unchanged (also when ValueError is raised), the result is a fixed point of validate(), contains only algorithms the running installation supports, lies inside the documented vocabularies, and z3 proves that each scalar is accepted exactly when it lies inside its documented domain (key sizes and their ordering, record_size_limit, ticket lifetime/count, max_early_data, dc_valid_time, version pair, EMS implication, boolean flags).",
+        note="One list field (0..2 elements quick, 0..3 thorough) or one scalar group varies at a time, the rest are defaults; the sentence 'any two compatible validated settings complete a handshake' needs live endpoints and is not claimed here (nearest obligations: C03).",
+        design="5/C19", technique=T),
     "C12": dict(
         text="For every enumerated (version, MAC, body length, block size) the real ct_check_cbc_mac_and_pad is executed on a fully symbolic body, sequence number and content type and z3 proves it equivalent to the plain specification (MAC modelled as an uninterpreted function of its whole input); the ct_* helpers are proved for all 32-bit arguments. Bounded by the enumerated lengths (quick: 5 lengths per MAC + two window-edge lengths; thorough: every n <= 80 and window edges to 400).",
         note="HMAC/SSLv3 MAC abstracted as uninterpreted function per input length; lengths outside the enumerated shapes are not covered; z3 and the symx engine are trusted (engine validated by lib/selfcheck.py and native replay of every counterexample).",
